@@ -69,12 +69,13 @@ def framing_streams(rng, n):
     return out
 
 
-async def run_stream_face(face_cls, chunks, eof=True, gap='yield'):
+async def run_stream_face(face_cls, chunks, eof=True, gap='yield', face=None, ret_face=False):
     """gap: 'yield' - the loop runs between chunks and before EOF; 'eof-with-last' - the last chunk and EOF become readable in the
     same loop turn; 'burst' - everything (and EOF) is buffered before run() gets to read at all (peer wrote and closed at once)."""
     got = []
-    face = face_cls()
-    face.reader = asyncio.StreamReader()
+    if face is None:
+        face = face_cls()
+    face.reader = asyncio.StreamReader()          # what open() does on every (re)connection
     face.running = True
 
     async def cb(typ, buf):
@@ -103,6 +104,8 @@ async def run_stream_face(face_cls, chunks, eof=True, gap='yield'):
             err = e
     else:
         task.cancel()
+    if ret_face:
+        return got, done, face.running, err, face
     return got, done, face.running, err
 
 
@@ -163,6 +166,15 @@ def check_framing(ctx, rng):
                     ctx.event('framing-gap-' + gap)
                     judge_framing(ctx, packets, n, got, done, running, err, {'stream': si, 'cuts': cuts[:20], 'face': cls.__name__, 'gap': gap})
                 ctx.case(('framing', si, cuts[:6], len(cuts)))
+            # the same face object used for a second connection after a stream that ended in the middle of a packet
+            for k in sorted(set(rng.sample(range(1, n), min(6, n - 1)))) if n > 2 else []:
+                cut = rng.randint(0, k)
+                got1, done1, running1, err1, fobj = await run_stream_face(TcpFace, [data[:cut], data[cut:k]], ret_face=True)
+                judge_framing(ctx, packets, k, got1, done1, running1, err1, {'stream': si, 'eof_at': k, 'connection': 1})
+                got2, done2, running2, err2 = await run_stream_face(TcpFace, [data[:n // 2], data[n // 2:]], face=fobj)
+                judge_framing(ctx, packets, n, got2, done2, running2, err2, {'stream': si, 'connection': 2, 'previous_stream_ended_at': k})
+                ctx.event('framing-second-connection-on-one-face')
+                ctx.case(('reconnect', si, k))
             # EOF at every offset (stream ends mid-packet)
             offs = range(0, n + 1) if small else sorted(set(rng.sample(range(0, n + 1), 40)) | {0, n})
             for k in offs:
@@ -652,6 +664,7 @@ def run(ctx):
         ctx.need_event(k)
     ctx.need_event('udp-datagram')
     ctx.need_event('framing-gap-burst')
+    ctx.need_event('framing-second-connection-on-one-face')
     ctx.need_event('framing-gap-eof-with-last')
     ctx.need_event('finished-window')
     ctx.assumptions = ['handler exceptions and validator exceptions of user code are outside the statement (harness handlers never raise)',
